@@ -54,6 +54,14 @@ fn check_query_forms(p: &P) {
         assert_eq!(has(pi, q), is_pinned(p, q), "is_pinned {q} {p:?}");
     }
     assert_eq!(c != 0, in_check_spec(p));
+    let o = occ(p);
+    for s in 0..64u8 {
+        if !has(o, s) { continue; }
+        for d in 0..64u8 {
+            assert_eq!(slider_reaches(s, d, o, false, true), has(rook_att(s, o), d));
+            assert_eq!(slider_reaches(s, d, o, true, false), has(bishop_att(s, o), d));
+        }
+    }
 }
 fn perft(p: &P, depth: u32) -> u64 {
     check_query_forms(p);
